@@ -96,12 +96,12 @@ def contracts():
         // a further round is reached only after a non-2xx answer whose problem document names a recoverable type
         it.index@ > 0 ==> !w.net.last_success && recoverable_body(w.net.last_body), //@C08.retry_only_after_recoverable_error
 """}, at=[("before", "0..crate::DEFAULT_HTTP_FAIL_NB_RETRY", 1, "it:"),
-          ("after_stmt", "data_builder(", 1, """
+          ("before_stmt", ".send(", 1, """
         proof {
-            // history variable: the body about to be sent was built from exactly (stored nonce, this url)
-            assert(exists|n: &str| n@ == nonce@ && #[trigger] data_builder.ensures((n, url), Ok(body))); //@C04.body_built_from_stored_nonce_and_url
-            assert(nonce@ == (match endpoint.nonce { Some(s) => s@, None => Seq::<char>::empty() })); //@C04.nonce_taken_from_endpoint_state
-            w.net.built = Some((nonce@, url@, body@));
+            // history variable: the body about to be sent was built, in this round, from exactly (stored nonce, this url)
+            let n_view = match nonce_view(endpoint.nonce) { Some(s) => s, None => Seq::<char>::empty() };
+            assert(exists|n: &str| n@ == n_view && #[trigger] data_builder.ensures((n, url), Ok(body))); //@C04.body_built_from_stored_nonce_and_url,C08.retransmission_rebuilt_with_newest_nonce
+            w.net.built = Some((n_view, url@, body@));
         }"""),
           ("before_stmt", "acme_err.is_recoverable", 1, """
                 proof {
